@@ -29,6 +29,7 @@ NullS == [st |-> "null", off |-> 0, len |-> 0]
 Win(o, l) == [st |-> "win", off |-> o, len |-> l]
 Dyn == {"d1", "d2"}
 
+NWit == 5          \* number of witness conditions (section "behaviour export")
 VARIABLES base, sp, hist
 vars == <<base, sp, hist>>
 L == Len(base)
@@ -56,7 +57,9 @@ Step(op, x, y, how, i, v, s2, b2) ==
 Set(x, w) == [sp EXCEPT ![x] = w]
 
 Init == /\ base \in UNION {[1..n -> {0}] : n \in 0..MaxLen}     \* zero-filled, length 0..MaxLen
-        /\ sp = [d1 |-> Unset, d2 |-> Unset, k |-> Unset, c |-> Unset]
+        \* d1 either does not exist yet or already views the whole array (built with span(base, L))
+        /\ sp \in {[d1 |-> w, d2 |-> Unset, k |-> Unset, c |-> Unset] : w \in {Unset, Win(0, Len(base))}}
+        /\ \A i \in 1..NWit : TLCSet(i, 0)
         /\ hist = IF Hist THEN <<[op |-> "init", x |-> "", y |-> "", how |-> "", i |-> 0, v |-> 0, exp |-> ObsOf(sp, base)]>> ELSE <<>>
 
 (* ---- construction ------------------------------------------------------ *)
@@ -143,11 +146,14 @@ Property == InBounds /\ NullIsEmpty /\ Aliasing
 (* ---- behaviour export ---------------------------------------------------- *)
 EmitAll == (Hist /\ Len(hist) = Depth + 1) => PrintT(<<"BEH", ToJson([steps |-> hist])>>)
 Last == hist[Len(hist)]
-Wit(w) == (Hist /\ Len(hist) > 1 /\ w) => (PrintT(<<"BEH", ToJson([steps |-> hist])>>) /\ FALSE)
-WitWriteSeenByOther == Wit(Last.op = "Write" /\ Last.x = "d1" /\ sp.d2.st = "win" /\ sp.d2.off > sp.d1.off
-                           /\ sp.d1.off + Last.i >= sp.d2.off /\ sp.d1.off + Last.i < sp.d2.off + sp.d2.len)
-WitEmptyAtEnd  == Wit(Last.op \in {"PtrCount", "Range"} /\ Last.i = L /\ L = MaxLen)
-WitStaticTail  == Wit(Last.op = "StaticFrom" /\ sp.k.off > 0 /\ sp.k.len > 0)
-WitConstStatic == Wit(Last.op = "ConstFrom" /\ Last.y = "k" /\ sp.c.len > 0)
-WitSelfAssign  == Wit(Last.op = "Assign" /\ Last.x = Last.y /\ sp[Last.x].len > 0)
+HasLast == Hist /\ Len(hist) > 1
+\* rare conditions that must be in the replay set of every run: each is reported once (per worker)
+\* from the path-enumeration run itself; the check is broken if one of them is never reported
+Wits == <<
+  <<"WriteSeenByOther", HasLast /\ Last.op = "Write" /\ Last.x = "d1" /\ sp.d2.st = "win" /\ sp.d2.off > sp.d1.off /\ sp.d1.off + Last.i >= sp.d2.off /\ sp.d1.off + Last.i < sp.d2.off + sp.d2.len>>,
+  <<"EmptyAtEnd", HasLast /\ Last.op \in {"PtrCount", "Range"} /\ Last.i = L /\ L = MaxLen>>,
+  <<"StaticTail", HasLast /\ Last.op = "StaticFrom" /\ sp.k.off > 0 /\ sp.k.len > 0>>,
+  <<"ConstStatic", HasLast /\ Last.op = "ConstFrom" /\ Last.y = "k" /\ sp.c.len > 0>>,
+  <<"SelfAssign", HasLast /\ Last.op = "Assign" /\ Last.x = Last.y /\ sp[Last.x].len > 0>> >>
+WitAll == \A i \in 1..NWit : (Wits[i][2] /\ TLCGet(i) = 0) => (PrintT(<<"WIT", Wits[i][1]>>) /\ TLCSet(i, 1))
 =============================================================================
